@@ -29,6 +29,7 @@ type Prog struct {
 	allFns []*ssa.Function
 	cidx   *callIndex
 	imn    map[string]bool
+	impls  map[string][]*ssa.Function
 }
 
 var repoDir = "/repo"
